@@ -9,8 +9,10 @@ CLAIM = ("Decided per explored history and fault sequence: the implementation ru
          "(Flw/Model.v) consumes the same fault oracle call by call, and the correspondence check compares results, error codes and "
          "directories after every step. Proved in Coq: with an exhausted fault oracle a model primitive behaves as its fault-free "
          "version (C19_no_fault_no_failure) and a failed write leaves the file untouched (C19_failed_write_no_effect). The "
-         "history-level theorem (prototype FltT.C19_core on a simplified model) is not yet ported to this model: partial.")
-THEOREMS = ["C19_no_fault_no_failure", "C19_failed_write_no_effect"]
+         "history-level theorem is proved for a writer without rotation in direct mode (C19_faults_norotation: for every fault "
+         "sequence and record list the file holds exactly the records whose open and write succeeded, every loss is reported, "
+         "C19_lost_only_failed, C19_recovery); with rotation, cleanup and buffering it is not proved: partial.")
+THEOREMS = ["C19_faults_norotation", "C19_lost_only_failed", "C19_recovery", "C19_no_fault_no_failure", "C19_failed_write_no_effect"]
 TRUSTED = ["modelled, not verified: which calls can fail and how the code reacts is tied by the correspondence; injected failures are "
            "io::ErrorKind::Other returned before the call (the call is then not made); BufWriter keeps unwritten bytes on a failed flush"]
 ASSUMPTIONS = ["failures are injected at the hook points (immediately before each file-system call), never in the middle of a call"]
@@ -72,8 +74,10 @@ def classify(body, impl, verdict):
     c = next(t for t in toks if t.startswith("B:"))[2:].split(",")
     if "panicked" in verdict:
         return "read-dir-failure-panics"
-    if c[5] != "~" and ("without-any-report" in verdict or "record-lost" in verdict):
-        return "buffered-tail-lost-silently"
+    snaps = [t for t in impl.split(" ") if t.startswith("s{")]
+    names = [e.split("=")[0] for e in snaps[-1][2:snaps[-1].index("}")].split(",") if e] if snaps else []
+    if any(n + "2e677a" in names for n in names):
+        return "original-next-to-its-archive-after-failed-compression"
     naming = c[7].split(".")
     direct_ts = naming[0] == "tsd" or (naming[0] == "cu" and naming[1] == "~")
     if direct_ts and c[4] == "1" and toks.count("S") > 1 and "2e726573746172742d" in impl:
